@@ -121,6 +121,15 @@ theorem constant_evolution_value (v t : K) : (Evo.const v).eval t = some v := rf
 
 /-! ## The time loop of `GenericSolver::execute` -/
 
+theorem initState_invH {ε : K} {o : Opts K} {ti te : K} (hm : 1 ≤ o.mSub) :
+    InvH o ti te (initState (fieldConsts ε) ti te) 1 := by
+  refine ⟨⟨le_refl _, ?_⟩, ?_, ?_⟩
+  · simp [initState]
+  · simp [initState]
+  · show Int.ofNat 0 < o.mSub
+    have : Int.ofNat 0 = 0 := rfl
+    omega
+
 /-- Sub-stepping by halving (`dynamic_time_step_scaling = false`): for every script of oracle
 answers, `execute` returns normally only with `t = te` exactly (exact arithmetic). Hypotheses:
 `ti < te` (enforced by `@Times`), `1 ≤ mSubSteps` (enforced by the setter; default 10) and
@@ -133,13 +142,25 @@ theorem time_loop_halving_ends_at_te {ε : K} {o : Opts K} {ti te : K} (script :
   unfold execute at h
   dsimp only at h
   split_ifs at h with hneg
-  refine loop_halving hdyn hε hlt hbound script (initState (fieldConsts ε) ti te) sf ?_ h
-  refine ⟨⟨1, le_refl _, ?_⟩, ?_, ?_⟩
-  · simp [initState]
-  · simp [initState]
-  · show Int.ofNat 0 < o.mSub
-    have : Int.ofNat 0 = 0 := rfl
-    omega
+  exact (loop_halving hdyn hε hlt hbound script (initState (fieldConsts ε) ti te) 1
+    (initState_invH hm)).1 sf h
+
+/-- ... and the loop does reach it: in halving mode at most `2^mSubSteps + mSubSteps` attempts are
+made, whatever the oracle answers — with a script at least that long `execute` never runs out of
+answers: it returns at `te` (previous theorem) or throws. -/
+theorem time_loop_halving_terminates {ε : K} {o : Opts K} {ti te : K} (script : List (Answer K))
+    (hdyn : o.dyn = false) (hε : 0 < ε) (hlt : ti < te) (hm : 1 ≤ o.mSub)
+    (hbound : 100 * ε * 2 ^ o.mSub.toNat ≤ 1)
+    (hlen : 2 ^ o.mSub.toNat + o.mSub.toNat ≤ script.length) (sf : LoopState K) :
+    execute (fieldConsts ε) o ti te script ≠ .exhausted sf := by
+  unfold execute
+  dsimp only
+  split_ifs with hneg
+  · intro h; cases h
+  · refine (loop_halving hdyn hε hlt hbound script (initState (fieldConsts ε) ti te) 1
+      (initState_invH hm)).2 ?_ sf
+    show 1 * 2 ^ (o.mSub.toNat - 0) + (o.mSub.toNat - 0) ≤ script.length
+    simpa using hlen
 
 /-- Dynamic time step scaling: for every script of oracle answers (any scaling factors, any
 options), a normal return happens only with `t ≤ te` and either `t = te` exactly, or `te - t` below the
